@@ -12,7 +12,7 @@ from ..common import program_corpus, analyse_program_goals
 ID = "C01"
 LEVEL = "model_checking"
 BUDGET = {"quick": 200, "thorough": 3300}
-HARD_TIMEOUT = 400
+
 ASSUMPTIONS = [
     "reference semantics = mc.model (self-tested by setup; bound to Polar's interpreter by path replay in C12)",
     "Fraction / mc.poly arithmetic; sympy expand/subs to evaluate Polar's closed form at integer n",
